@@ -386,6 +386,7 @@ func checkC03(c *Ctx, r *Report) {
 		checkAESPadArithmetic(c, r, fn)
 	}
 	checkAESPadConvention(c, r)
+	checkHashAlwaysReset(c, r)
 	// the integrity hash handed to the wrapper is the negotiated algorithm's, keyed by K1 and
 	// truncated as specified (shared with C01): the AuthCode length follows from it
 	checkAlgorithmTables(c, r)
@@ -444,4 +445,58 @@ func checkAESPadArithmetic(c *Ctx, r *Report, fn *ssa.Function) {
 		}
 	}
 	r.Check(okPad, name+"|pad length", fn.Pos(), "payload+n+1 ≡ 0 (mod 16), 0 ≤ n ≤ 15", whyPad)
+}
+
+
+// checkHashAlwaysReset: the keyed hashes are long-lived objects shared by every
+// packet of a session (and by the handshake computations): whatever is written
+// into one must be cleared again before the function that wrote it returns, on
+// every path — otherwise the next AuthCode is computed over leftovers.
+func checkHashAlwaysReset(c *Ctx, r *Report) {
+	r.Rule("hash-always-reset", "every function that writes into a hash.Hash resets it on every path before returning", 2)
+	for _, fn := range c.LibFuncs() {
+		writes := false
+		rawInstrs(fn, false, func(in ssa.Instruction) {
+			if cc := asCall(in); cc != nil && cc.IsInvoke() && cc.Method.Name() == "Write" && isHashHash(cc.Value.Type()) {
+				writes = true
+			}
+		})
+		if !writes {
+			continue
+		}
+		name := c.FnName(fn)
+		r.Fn(name)
+		ok := true
+		var pos = fn.Pos()
+		complete := enumPaths(fn, 2, 20000, func(p CPath) {
+			if _, isRet := p.Last().(*ssa.Return); !isRet {
+				return
+			}
+			dirty := map[ssa.Value]bool{}
+			for _, in := range p.Instrs() {
+				cc := asCall(in)
+				if cc == nil || !cc.IsInvoke() || !isHashHash(cc.Value.Type()) {
+					continue
+				}
+				h := p.Resolve(cc.Value)
+				switch cc.Method.Name() {
+				case "Write":
+					dirty[h] = true
+				case "Reset":
+					dirty[h] = false
+				}
+			}
+			for _, d := range dirty {
+				if d {
+					ok = false
+					pos = p.Last().Pos()
+				}
+			}
+		})
+		if !complete {
+			r.Unk(name+"|hash reset", fn.Pos(), "too many paths")
+			continue
+		}
+		r.Check(ok, name+"|hash reset", pos, "written hash is reset on every path", "a path returns with data still written into the shared hash: the next digest (the next packet's AuthCode) is computed over leftovers")
+	}
 }
